@@ -39,6 +39,7 @@ def main(argv=None):
         tier = argv[2] if len(argv) > 2 else os.environ.get('VERIF_TIER', 'quick')
         seed = int(os.environ.get('VERIF_SEED', '0'))
         runs, budget = TIERS[prop][tier]
+        os.environ['VERIF_TIER'] = tier
         runs = int(os.environ.get('VERIF_RUNS', runs))
         budget = int(os.environ.get('VERIF_BUDGET_S', budget))
         return core.run_batch(prop, tier, seed, runs, budget)
